@@ -504,7 +504,7 @@ pub fn run(ctx: &Ctx) {
     // references: &T and &mut T share T's constant
     let x: &'static u64 = Box::leak(Box::new(u64::MAX));
     r.evals += 2;
-    if <&u64 as MaxSize>::POSTCARD_MAX_SIZE < serialized_size(&x).unwrap() || <&mut i128 as MaxSize>::POSTCARD_MAX_SIZE < serialized_size(&i128::MIN).unwrap() {
+    if <&u64 as MaxSize>::POSTCARD_MAX_SIZE < serialized_size(&x).unwrap_or(usize::MAX) || <&mut i128 as MaxSize>::POSTCARD_MAX_SIZE < serialized_size(&i128::MIN).unwrap_or(usize::MAX) {
         ctx.violation("max-size-exceeded:reference", "reference types under-estimate".into(), 0, json!({"type": "&u64 / &mut i128"}));
     }
     r.types += 2;
